@@ -188,6 +188,26 @@ func init() {
 			fr.i.spawned = nil
 			return n
 		},
+		// verifGuard(obj any, lock any): obj is a pointer to a struct (all its cells, nested by value, and maps held
+		// directly in them are guarded) or a map; lock is a pointer to the sync.Mutex / sync.RWMutex protecting it.
+		"verifGuard": func(fr *frame, args []value) value {
+			lk, _ := args[1].(iface).v.(*value)
+			if lk == nil {
+				panic(unsupported("verifGuard: lock must be a non-nil pointer"))
+			}
+			switch o := args[0].(iface).v.(type) {
+			case *value:
+				if o == nil {
+					panic(unsupported("verifGuard: nil object"))
+				}
+				fr.i.guardValue(o, lk)
+			case *omap:
+				fr.i.guardMaps[o] = lk
+			default:
+				panic(unsupported(fmt.Sprintf("verifGuard on %T", o)))
+			}
+			return nil
+		},
 		"verifSetClock": func(fr *frame, args []value) value {
 			fr.i.clockNs = concreteInt(args[0], "verifSetClock")
 			return nil
@@ -488,9 +508,11 @@ func DefaultExternals() map[string]externalFn {
 			return symInt{fr.i.freshVar("env:time.Sub", 64, "env"), types.Int64}
 		},
 		// the process environment is empty
-		"syscall.runtime_envs": func(fr *frame, args []value) value { return []value(nil) },
+		"syscall.runtime_envs":       func(fr *frame, args []value) value { return []value(nil) },
 		"internal/godebug.setUpdate": nop, "internal/godebug.registerMetric": nop, "internal/godebug.setNewIncNonDefault": nop,
-		"syscall.Getrlimit":    func(fr *frame, args []value) value { return fr.i.newError("getrlimit: not available under symbolic execution") },
+		"syscall.Getrlimit": func(fr *frame, args []value) value {
+			return fr.i.newError("getrlimit: not available under symbolic execution")
+		},
 		"(*time.Location).get": func(fr *frame, args []value) value { return args[0] },
 		"time.NewTimer":        func(fr *frame, args []value) value { return fr.i.newTimer(fr.fn, "Timer") },
 		"time.NewTicker":       func(fr *frame, args []value) value { return fr.i.newTimer(fr.fn, "Ticker") },
